@@ -544,13 +544,12 @@ def rule_steer_lookup(ctx):
     """LASFile.read: the VERS/WRAP/NULL/DLM lookups after each header section are membership-guarded
     (a section without them must not raise)."""
     p = ctx.p
-    fi = p.func("las.LASFile.read")
+    from rules.common import host_sections
+    fi = host_sections(p)
     n = 0
     for sub in walk_shallow(fi.node):
         if isinstance(sub, ast.Assign) and len(sub.targets) == 1 and isinstance(sub.targets[0], ast.Name):
             tname = sub.targets[0].id
-            if not tname.startswith("provisional_"):
-                continue
             v = sub.value
             mn = None
             # X.MNEM.value  or X["MNEM"].value
@@ -619,7 +618,8 @@ def rule_flag_forward(ctx):
     header parser unchanged, for every section"""
     p = ctx.p
     r = get_resolver(p)
-    fr = p.func("las.LASFile.read")
+    from rules.common import host_sections
+    fr = host_sections(p)
     calls = [c for c in walk_shallow(fr.node) if isinstance(c, ast.Call) and any(t.qual == SECTION_FN for t in r.callees(fr, c)[0])]
     if not calls:
         raise AnalysisError("LASFile.read does not call %s" % SECTION_FN)
